@@ -164,6 +164,19 @@ OnCompare(e) ==
         v5 == IF ~e.same_success THEN v4 \cup {"ResumedSameSuccess"} ELSE v4
     IN [s EXCEPT !.viol = v5]
 
+(* C15: what was written / is readable against the rows the solver held (bit-for-bit, logged as booleans) *)
+OnFiles(e) ==
+    LET v1 == V(s.viol, e.mem_equal, "MemoryRowsAreSolverValues")
+        v2 == IF ~e.files_exist THEN v1 \cup {"OutputFilesWritten"} ELSE v1
+        v3 == IF ~e.npz_equal THEN v2 \cup {"FileRowsAreSolverValues"} ELSE v2
+        v4 == IF ~e.labels_ok THEN v3 \cup {"LabelsNameColumns"} ELSE v3
+        v5 == IF ~e.plotter_ok THEN v4 \cup {"PlotLoaderReadsFile"} ELSE v4
+        v6 == IF ~e.csv_ok THEN v5 \cup {"CsvExportExact"} ELSE v5
+        v7 == IF ~e.query_ok THEN v6 \cup {"QueriesReturnRightColumns"} ELSE v6
+        v8 == IF e.files_exist /\ e.n_file # e.n_expected THEN v7 \cup {"FileHasOneRowPerKeptStep"} ELSE v7
+        v9 == IF ~e.replay_ok THEN v8 \cup {"ReplayFromCsvReproduces"} ELSE v8
+    IN [s EXCEPT !.viol = v9]
+
 OnOther(e) == s
 
 Consume ==
@@ -179,6 +192,7 @@ Consume ==
                  [] e.e = "calc_h"    -> OnCalcH(e)
                  [] e.e = "run_end"   -> OnRunEnd(e)
                  [] e.e = "compare"   -> OnCompare(e)
+                 [] e.e = "files"     -> OnFiles(e)
                  [] OTHER             -> OnOther(e)
     /\ l' = l + 1
     /\ UNCHANGED tid
